@@ -2,6 +2,7 @@ import PgBifrost.Model.Stages
 import PgBifrost.Proofs.Backoff
 import PgBifrost.Gen.Retry
 import PgBifrost.Gen.Wiring
+import PgBifrost.Props.C01
 /-!
 # C17 — fail-stop (property theorems; partial)
 
@@ -315,5 +316,29 @@ theorem runner_starts_every_stage :
     runnerWaitsOnCtx = true := by decide
 
 end wiring
+
+/-! ## "from that moment on nothing is acknowledged beyond what the sink had accepted"
+
+In the composed system (`Model/Sys.lean`) a fault is not a special action: a sink that keeps failing is a run in
+which `sinkRetry` is all that worker ever does again, a dead worker or batcher is a run in which its actions no
+longer occur, a crash is the end of the action list. The C01 theorems quantify over ALL action lists, so they
+cover every fault at every point. Restated here for the reading the property gives it. -/
+section faults
+open PgBifrost.Batch PgBifrost.Batcher
+variable {K : Kind} {big bad : Msg → Bool} {dom : Msg → Prop}
+
+/-- **No fault makes an acknowledgement unsafe.** Split any run at any point (`fault`): whatever happens
+afterwards — workers that never accept again, stages that stop taking part, nothing at all — every value the
+tracker emits, before or after that point, covers only deliveries whose data messages the sink has accepted
+(or that were dropped as too big). -/
+theorem fault_never_unsafe_ack (bcfg : Batcher.Cfg) (redeliver : Bool) (before after : List Sys.Act)
+    (hE : Sys.Env redeliver K big bad dom (before ++ after)) (hs : Sys.Sched redeliver ⟨K, bcfg⟩ (before ++ after)) :
+    ∀ v ∈ (Sys.run ⟨K, bcfg⟩ (before ++ after)).acks,
+      ∀ c ∈ Sys.fedMsgs (before ++ after), c.op = .commit → c.lsn ≤ v →
+        ∀ m ∈ Sys.fedMsgs (before ++ after), m.op = .data → m.key = c.key →
+          m ∈ (Sys.run ⟨K, bcfg⟩ (before ++ after)).sinkAccepted ∨ big m = true :=
+  PgBifrost.Props.C01.sys_crash_restart_no_loss bcfg redeliver (before ++ after) hE hs (before ++ after) (List.prefix_refl _)
+
+end faults
 
 end PgBifrost.Props.C17
